@@ -19,6 +19,7 @@ pub fn oracles_for(name: &str) -> Oracles {
         "c03" => Oracles { leaf_grads: true, inner_grads: true, grad_shapes: true, ..Default::default() },
         "c08" => Oracles { immutable: true, ..Default::default() },
         "c09" => Oracles { grad_absence: true, flags: true, result_tracking: true, ..Default::default() },
+        "c18" => Oracles { ownership: true, ..Default::default() },
         "c11" => Oracles { custom_log: true, ..Default::default() },
         "c19" => Oracles { forward: true, leaf_grads: true, grad_shapes: true, result_tracking: true, ..Default::default() },
         _ => Oracles::default(),
@@ -68,6 +69,7 @@ pub fn hist_sample(h: &History) -> Value {
             Step::ReadGrad { h } => format!("read_grad(h{})", h),
             Step::ClearGrad { h, .. } => format!("clear_grad(h{})", h),
             Step::Update { lr, params } => format!("update(lr={}, {:?})", lr, params),
+            Step::ProbeSole { h } => format!("probe_sole_owner(h{})", h),
         })
         .collect();
     json!(steps)
@@ -114,6 +116,9 @@ impl CaseKind for HistCase {
                 c.push("mode:tolerance".into())
             }
             c.push(format!("fanout:{}", st.max_fanout.min(4)));
+            if st.probes > 0 {
+                c.push(format!("probes:{}", st.probes.min(6)));
+            }
             c
         };
         let _ = &it;
@@ -127,6 +132,7 @@ impl CaseKind for HistCase {
                     "c03" => st.passes >= 1 && st.grads_compared >= 1,
                     "c08" => st.snapshots_compared > 0 && (st.passes >= 1),
                     "c09" => st.passes >= 1,
+                    "c18" => st.probes_after_pass >= 1,
                     "c11" => st.log_entries_checked >= 1 && st.logged_shared_node,
                     _ => st.passes >= 1,
                 };
